@@ -224,6 +224,13 @@ func (run *checkRun) verdict(eng *Engine, outDir string) int {
 			if o.Result.Status == "unsat" {
 				continue
 			}
+			if o.Kind == "model" {
+				// the call is outside what the assumed contract of a library
+				// function models: nothing is known about it, which is not a
+				// violation
+				run.toolErrors = append(run.toolErrors, fmt.Sprintf("%s: call outside the modelled domain of the assumed contract (%s)", o.Name, o.Clause))
+				continue
+			}
 			// known finding?
 			if kf := matchKnown(known, prop.ID, o.Name); kf != nil {
 				if run.knownStillOnlyKnown(eng, r, o, kf) {
@@ -316,6 +323,9 @@ func firstLine(s string) string {
 // counts says whether obligation o of result r belongs to the property.
 func (run *checkRun) counts(r *FuncResult, o *Obligation) bool {
 	p := run.prop
+	if o.Kind == "model" {
+		return true
+	}
 	if p.Kinds != nil && !p.Kinds[o.Kind] {
 		return false
 	}
